@@ -63,7 +63,11 @@ MIN_COUNTERS = {'moc_files_judged': 300, 'moc_after_query_judged': 100, 'moc_cel
                 'alias_cases': 100, 'alias_untouched_exports_judged': 500, 'alias_untouched_state_checks': 300,
                 'alias_modified_A': 30, 'alias_modified_B': 30, 'alias_route_union_into_empty': 10,
                 'alias_route_union_into_deeper': 8, 'alias_route_add_pixels_layers': 8,
-                'alias_route_shared_caller_set': 8, 'alias_route_pickle_copy': 8}
+                'alias_route_shared_caller_set': 8, 'alias_route_pickle_copy': 8,
+                'special_id_regions': 100, 'special_id_via_cli': 25, 'special_id_via_functions': 25,
+                'mim_saved_with_a_layer_equal_to_pixel_zero': 60,
+                'mim_saved_with_a_layer_equal_to_pixel_zero_no_query_before': 40,
+                'mim_saved_with_a_layer_equal_to_last_pixel': 60}
 BATCH_TIMEOUT = 1500
 
 REG_TOL_ARCSEC = 0.2
@@ -76,7 +80,8 @@ def mechanism(clause, w):
     """uniq-misses-deepest-level: the MOC has no cell of order == maxdepth although the region stores pixels there, and
                                   what is missing from the decoded set is exactly the sky of those pixels
        maxdepth-1-demote:         UnboundLocalError out of _demote_all on a maxdepth=1 region"""
-    if clause == 'moc_vs_region' and w.get('n_stored_at_maxdepth', 0) > 0 and w.get('n_cells_at_maxdepth') == 0 \
+    if clause == 'moc_vs_region' and 'mim2fits' not in str(w.get('stage', '')) and w.get('expected_from_snapshot') is None \
+            and w.get('n_stored_at_maxdepth', 0) > 0 and w.get('n_cells_at_maxdepth') == 0 \
             and w.get('n_extra') == 0 and w.get('missing_is_exactly_deepest_level'):
         return 'uniq-misses-deepest-level'
     if clause == 'raises' and w.get('exc_type') == 'UnboundLocalError' and '_demote_all' in w.get('tb', '') \
@@ -421,6 +426,12 @@ class Exporter:
             return None
         o.count('mim_roundtrips_judged')
         o.n_eval += 1
+        if any(x == {0} for x in own.values()):
+            o.count('mim_saved_with_a_layer_equal_to_pixel_zero')
+            if len(getattr(region, 'demoted', ())) == 0:
+                o.count('mim_saved_with_a_layer_equal_to_pixel_zero_no_query_before')
+        if any(x == {hs.npix(d) - 1} for d, x in own.items()):
+            o.count('mim_saved_with_a_layer_equal_to_last_pixel')
         l2, f2 = snapshot(r2)
         same = (not f2) and r2.maxdepth == M and dict((d, s) for d, s in l2.items() if s) == \
             dict((d, s) for d, s in levels.items() if s)
@@ -537,6 +548,27 @@ def build_direct(case):
     elif what == 'single_coarse':
         lo = max(1, M - COARSEST_SPAN)
         r.add_pixels([int(rng.integers(0, hs.npix(lo)))], lo)
+    elif what in ('pixel_zero', 'pixel_last'):
+        # exact special ids: the first / the last pixel of the sphere, alone in the deepest layer
+        r.add_pixels([0 if what == 'pixel_zero' else hs.npix(M) - 1], M)
+    elif what in ('pixel_zero_coarse', 'pixel_last_coarse'):
+        # ... alone in a coarser layer, beside a few deepest-level pixels elsewhere on the sphere
+        lo = int(rng.integers(max(1, M - COARSEST_SPAN), M + 1))
+        r.add_pixels([0 if what == 'pixel_zero_coarse' else hs.npix(lo) - 1], lo)
+        if M > 1:
+            base = 4 * 4 ** (M - 1)                     # deepest-level ids of base cells 4..7 (away from both ends)
+            r.add_pixels(sorted(set(int(x) for x in rng.integers(base, 2 * base, 5))), M)
+    elif what == 'zero_and_last_layers':
+        # pixel 0 alone in one layer, the last pixel alone in another, a circle's worth of other layers in between
+        lo = max(1, M - COARSEST_SPAN)
+        l0 = int(rng.integers(lo, M + 1))
+        l1 = int(rng.integers(lo, M + 1))
+        r.add_pixels([0], l0)
+        if l1 != l0 or M == 1:
+            r.add_pixels([hs.npix(l1) - 1], l1)
+        if M >= 3 and rng.random() < 0.5:
+            res = c08._resol(M)
+            r.add_circles(3.0, 0.05, float(3.0 * res))          # equatorial, base cells 4..7
     elif what == 'single_each_level':
         # disjoint pixels, one per level (each inside its own level-1 cell, so no two overlap); the coarsest level used
         # is maxdepth-6, which keeps the deepest-level set (4**6 per pixel) small enough to enumerate
@@ -1047,6 +1079,13 @@ def cases(seed, tier):
             out.append({'kind': 'direct', 'depth': M, 'what': what, 'via': 'methods', 'seed': [0, 'direct', M, what]})
         if M <= 6:
             out.append({'kind': 'direct', 'depth': M, 'what': 'whole', 'via': 'methods', 'seed': [0, 'whole', M]})
+        # exact special pixel ids (0 and 12*4**d - 1) alone in a layer, by API, MIMAS functions and CLI from the file
+        for j, what in enumerate(('pixel_zero', 'pixel_last', 'pixel_zero_coarse', 'pixel_last_coarse',
+                                  'zero_and_last_layers')):
+            for rep_ in range(2 if tier == 'quick' else 6):
+                out.append({'kind': 'direct', 'depth': M, 'what': what, 'special': True,
+                            'via': ('methods', 'functions', 'cli')[(M + j + rep_) % 3],
+                            'seed': [0 if rep_ < 2 else seed, 'special', M, what, rep_]})
     nrand = 8 if tier == 'quick' else 80
     for M in range(1, 13):
         for k in range(nrand):
@@ -1088,6 +1127,9 @@ def run(case):
                 o.count('whole_sky_regions')
             if case['what'] == 'empty':
                 o.count('empty_regions')
+            if case.get('special'):
+                o.count('special_id_regions')
+                o.count('special_id_via_' + case['via'])
             ex.battery(r, via=case['via'])
             lv, fr = snapshot(r)
             if any(lv.values()):
